@@ -1,5 +1,6 @@
 import Nstd.Callback.LemmasMonitor
 import Nstd.Callback.LemmasFuel
+import Nstd.Callback.LemmasGhost
 /-
   Property C12 — signals reach exactly the connected slots, safely under re-entrancy.
 
@@ -213,6 +214,22 @@ theorem fuel_irrelevant (P : Prog) (ne nl n : Nat) (ops : List Action)
     (h : (runOps machine P n (Run.init State.fresh ne nl) ops).oof = false) (n' : Nat) (hn : n ≤ n') :
     runOps machine P n' (Run.init State.fresh ne nl) ops = runOps machine P n (Run.init State.fresh ne nl) ops :=
   runOps_fuel_mono machine P n ops _ h n' hn
+
+/-- **The node numbers are ghosts.**  `Slot.node` (the identity of a list node, used by the proofs
+    to speak about "the same connection") influences nothing: `machine0` is the model whose
+    `connect` stores node 0 and never advances the allocation counter; for every program its run
+    has the same invocation log and ends in the erasure (`State.strip`: all node numbers 0) of the
+    state the model ends in. -/
+theorem node_is_ghost (P : Prog) (ne nl fuel : Nat) (ops : List Action) :
+    (runOps machine0 P fuel (Run.init State.fresh ne nl) ops).log =
+        (runOps machine P fuel (Run.init State.fresh ne nl) ops).log ∧
+      (runOps machine0 P fuel (Run.init State.fresh ne nl) ops).m =
+        (runOps machine P fuel (Run.init State.fresh ne nl) ops).m.strip := by
+  have h0 : RunRel SimG [] (Run.init State.fresh ne nl) (Run.init State.fresh ne nl) :=
+    ⟨⟨fresh_strip.symm, fun k hk => by simp at hk, Spec.SState.fresh, [], sim_init, rfl⟩,
+      ⟨rfl, rfl, rfl, rfl, rfl⟩, rfl, rfl, rfl, rfl⟩
+  have h := runOps_relG P fuel ops h0
+  exact ⟨h.log.symm, h.sim.1⟩
 
 /-! ### non-vacuity: a concrete program in which a slot disconnects, re-connects and disconnects
     itself inside an emission (the input of defect D18), then is not invoked any more -/
